@@ -812,6 +812,11 @@ func (c *Client) Start() (addr net.Addr, err error) {
 		}
 		if scanner.Err() != nil {
 			c.logger.Error("error encountered while scanning stdout", "error", scanner.Err())
+
+			// The scanner gives up on a line longer than its token limit. Keep
+			// consuming stdout anyway, otherwise the plugin blocks for good as
+			// soon as the pipe is full.
+			_, _ = io.Copy(io.Discard, runner.Stdout())
 		}
 	}()
 
